@@ -6,7 +6,7 @@ from ..runner import Case, Property
 
 class C19(Property):
     id = "C19"
-    lean_module = "RosuModel.Props.C19Full"   # imports Props/C19Lipschitz.lean, Props/C19.lean (namespace Rosu.C19) and Props/C16Surplus.lean
+    lean_module = "RosuModel.Props.C19Full"   # imports Props/C19Curve.lean (→ Props/C19Lipschitz.lean, Props/C19.lean, Props/C16Surplus.lean) and Props/C19Ieee.lean; namespace Rosu.C19
     theorem_modules = ['RosuModel.Props.C19Curve', 'RosuModel.Props.C19Ieee', 'RosuModel.Props.C19IeeePos']   # files whose top-level theorems are all audited
     namespace = "Rosu.C19"
     design_ref = "5.19"
@@ -18,7 +18,8 @@ class C19(Property):
         "interpolate_total / positionAt_total (no index read can panic on a curve), bsLoop_inv / bs_probe_in_range / idxOfDist_le "
         "(every get_unchecked probe of the search is in range; the result is in 0..=len), bsLoop_fuel, interpolate_degenerate, "
         "interpolate_formula, position_first_of_idx_zero. Exact-arithmetic part (explicit hypotheses PosLaws, shown satisfiable on Rat by posLaws_rat): "
-        "idxOfDist_hit / bsLoop_hit (on strictly increasing lengths std's probing sequence returns the index of an exact hit), interpolate_at_vertex, "
+        "idxOfDist_hit / bsLoop_hit (on strictly increasing lengths std's probing sequence returns the index of an exact hit; for IEEE doubles without PosLaws: idxOfDist_hit_float, Props/C19Ieee.lean, from the "
+        "order facts of IEEE `<` proved on Lean 4.33's logical float model), interpolate_at_vertex, "
         "position_at_vertex, position_at_zero_first, position_at_one_last, progressToDist_zero_one - for curves whose lengths strictly increase by more "
         "than EPSILON (otherwise the code deliberately returns the segment start). "
         "position_lipschitz (Props/C19Lipschitz.lean) is PROVED in exact arithmetic about positionAt/progressToDist/idxOfDist/interpolateVertices themselves: for EVERY two progress "
@@ -45,16 +46,21 @@ class C19(Property):
                          "cmpLen_gt_iff", "bsLoop_spec", "idxOfDist_spec", "interpolate_eq_polyAt", "clamp01_lipschitz",
                          "position_lipschitz", "position_lipschitz_ordered", "normLaws_euclid", "position_lipschitz_real",
                          # Props/C19Curve.lean
-                         "natLens_chord", "natural_curve_lipschitz_real"]
+                         "natLens_chord", "natural_curve_lipschitz_real",
+                         # Props/C19Ieee.lean: the order part of PosLaws for the driver's Float; the search finds an exact hit for IEEE doubles
+                         "posLaws_order_float", "bsLoop_hit_ieee", "idxOfDist_hit_ieee", "idxOfDist_hit_float"]
     partial_theorems = {
-        "position_at_zero_first / position_at_one_last / position_at_vertex": "proved in exact arithmetic only (PosLaws: lt irreflexive/asymmetric, 0*x=0, 1*x=x, (b-a)/(b-a)=1 for a<b, x*1=x, a+(b-a)=b; instantiated on Rat) and for strictly increasing lengths with consecutive differences above EPSILON; with zero-length segments the position is the start of a coincident run (tested), in IEEE the equalities hold within 1e-6*scale (tested)",
-        "position_lipschitz": "proved in exact arithmetic only (ExactArith + NormLaws + the curve invariants listed in level_text; instantiated on Rat with the L1 norm on a concrete 3-vertex curve and on the reals with the Euclidean norm = the model's Pos::distance). NOT proved for IEEE floats (tested by the oracle with float slack 4e-6*scale + 1e-5). The hypotheses are necessary: (a) without NonDegenerate the bound is false in exact arithmetic whenever EPSILON > 0, because interpolate_vertices snaps a segment of booked length <= EPSILON to its start (a jump of up to EPSILON; argued, the counterexample is not machine-checked: path (0,0),(e,0),(1+e,0), lengths 0,e,1+e with e = EPSILON - distance e is answered with (0,0), distance e+1/2 with (e+1/2,0)) - so the old position_lipschitz_statement, kept in Props/C19.lean, is not provable as written; (b) ChordBound is an inequality: the first segment of an osu!-mode Catmull path books optimized_len on top of its chord (F12) and satisfies it; it fails only when the surplus is negative by IEEE rounding (~ -5e-7 observed) and for the NaN end point of F11; that Curve::new establishes ChordBound is proved for curves without a requested length (natLens_chord + C16 surplus_nonneg; natural_curve_lipschitz_real) and NOT for the re-projected last segment of a length-adjusted curve; StrictSorted/NonDegenerate (no zero-length or sub-EPSILON segment) stay hypotheses - they genuinely fail for duplicate vertices, where the code snaps to the start of the coincident run",
+        "position_at_zero_first / position_at_one_last / position_at_vertex": "proved in exact arithmetic only (PosLaws: lt irreflexive/asymmetric, 0*x=0, 1*x=x, (b-a)/(b-a)=1 for a<b, x*1=x, a+(b-a)=b; instantiated on Rat) and for strictly increasing lengths with consecutive differences above EPSILON; with zero-length segments the position is the start of a coincident run (tested), in IEEE the equalities hold within 1e-6*scale (tested). PosLaws as a whole is FALSE of the driver's instances — kernel-checked: Rosu.IeeeFalse.posLaws_float_false (0 · NaN is NaN; Props/IeeeFalse.lean, audited under C02) — so these vertex-position theorems are vacuous on IEEE",
+        "idxOfDist_hit / bsLoop_hit": "the generic forms take PosLaws but use only its order fields lt_irrefl / lt_asymm, which ARE theorems of IEEE `<` (Props/C19Ieee.lean; Lean 4.33's Float is a structure over the logical model Float.Model and `<` reduces in the kernel; Lemmas/FloatModelCompare.lean: FMO.lt_irrefl, FMO.lt_asymm): posLaws_order_float, and bsLoop_hit_ieee / idxOfDist_hit_ieee re-proved for every scalar with IEEE comparisons, idxOfDist_hit_float — on strictly increasing cumulative lengths idx_of_dist finds the index of an exact hit, for IEEE doubles, no hypothesis about the arithmetic (StrictSorted lengths stays a hypothesis on the curve)",
+        "position_lipschitz": "proved in exact arithmetic only (ExactArith + NormLaws + the curve invariants listed in level_text; instantiated on Rat with the L1 norm on a concrete 3-vertex curve and on the reals with the Euclidean norm = the model's Pos::distance). NOT proved for IEEE floats (tested by the oracle with float slack 4e-6*scale + 1e-5); ExactArith (the operations are those of an ordered field) is not instantiated for Float and the theorem is about exact arithmetic. The hypotheses are necessary: (a) without NonDegenerate the bound is false in exact arithmetic whenever EPSILON > 0, because interpolate_vertices snaps a segment of booked length <= EPSILON to its start (a jump of up to EPSILON; argued, the counterexample is not machine-checked: path (0,0),(e,0),(1+e,0), lengths 0,e,1+e with e = EPSILON - distance e is answered with (0,0), distance e+1/2 with (e+1/2,0)) - so the old position_lipschitz_statement, kept in Props/C19.lean, is not provable as written; (b) ChordBound is an inequality: the first segment of an osu!-mode Catmull path books optimized_len on top of its chord (F12) and satisfies it; it fails only when the surplus is negative by IEEE rounding (~ -5e-7 observed) and for the NaN end point of F11; that Curve::new establishes ChordBound is proved for curves without a requested length (natLens_chord + C16 surplus_nonneg; natural_curve_lipschitz_real) and NOT for the re-projected last segment of a length-adjusted curve; StrictSorted/NonDegenerate (no zero-length or sub-EPSILON segment) stay hypotheses - they genuinely fail for duplicate vertices, where the code snaps to the start of the coincident run",
     }
     trusted_base = [
         "Lean 4.33.0 kernel",
         "axioms: at most propext, Classical.choice, Quot.sound (audited per theorem with #print axioms)",
         "hand-written model Model/Curve.lean; slice::binary_search_by modelled after the std source of the pinned toolchain and validated by the differential run (indices compared for sorted, unsorted and NaN inputs)",
         "harness/src/curve.rs and the oracle in harness/src/curveprop.rs",
+        "idxOfDist_hit_float / posLaws_order_float are about Lean 4.33's logical float model Float.Model (Float is a structure over it, not opaque); that the compiled @[extern] C operations agree with that model is part of "
+        "Lean's own trusted code base and is compared with Rust bit for bit (codec requests fop64 / fop32 cmp; every request of this run)",
     ]
     assumptions = [
         "theorems are about the Lean model; model = code is checked on the generated inputs of this run (bit-for-bit)",
